@@ -38,6 +38,8 @@ class Func:
         self.island = False   # lives in the unrelated ("island") module of a mixed-link program
         self.ngate = 0
         self.fuel = False
+        self.lrefam = False   # gets "lref family" constructs (lref_dead)
+        self.nojmpi = False   # no laddr / lref / jmpi statement of the ordinary kinds: no reachable jmpi in the function
         self.cost = 1
         self.body = []
         self.lrefs = []   # (table name, [labels])
@@ -47,8 +49,12 @@ class Func:
 
 
 class Gen:
-    def __init__(self, rng, nmodules=None, nfuncs=None, size=None, feats=None, mixed=False):
+    def __init__(self, rng, nmodules=None, nfuncs=None, size=None, feats=None, mixed=False, lrefam=False):
         self.rng = rng
+        # lrefam: the "lref family" (round 3, wave z): functions owning lref data items of every form whose labels
+        # stand in reachable and in UNREACHABLE code, with and without a reachable jmpi in the function (see lref_dead)
+        self.lrefam = lrefam
+        self.lref_shapes = []
         # mixed: programs for histories that mix interfaces ACROSS link steps (gen_mixed_history): always layered,
         # an entry ('ii') function in every module (so each module can be executed as soon as it is linked), calls of
         # an entry gated by the bits of its second argument (the history decides which callees get their first call
@@ -110,6 +116,9 @@ class Gen:
                 if rng.random() < 0.35 and self.ok('recursion'):
                     f.args.insert(0, 'i64')
                     f.fuel = True
+            if self.lrefam and k != 'va' and rng.random() < 0.75:
+                f.lrefam = True
+                f.nojmpi = rng.random() < 0.6
             self.funcs.append(f)
         if self.mixed:
             # the island: an entry, one or two callees, a callback target; nothing in common with the other modules
@@ -212,7 +221,14 @@ class Gen:
             e('jmp %s' % lh)
             e('%s:' % le)
             e('va_end va')
-        out += self.stmts(f, self.size, 0)
+        if f.lrefam:
+            out += self.stmts(f, self.size // 2, 0)
+            out += self.lref_dead(f)
+            out += self.stmts(f, self.size - self.size // 2, 0)
+            for _ in range(rng.choice([0, 0, 1, 2])):
+                out += self.lref_dead(f)
+        else:
+            out += self.stmts(f, self.size, 0)
         if self.mixed and f.kind == 'ii':
             # an entry of a mixed-link program has a few (gated) calls for sure
             for _ in range(rng.randint(1, 3)):
@@ -344,7 +360,7 @@ class Gen:
                 o += self.stmts(f, rng.randint(1, 2), depth + 1, inloop)
                 o.append('jmp %s' % lend)
             o.append('%s:' % lend)
-        elif r < 0.76 and depth < 3 and self.ok('laddr'):
+        elif r < 0.76 and depth < 3 and self.ok('laddr') and not f.nojmpi:
             self.feats.add('laddr')
             la, lb, ls, le = (self.newlab(f) for _ in range(4))
             o += ['laddr t1, %s' % la, 'laddr t2, %s' % lb, 'and t0, %s, 1' % a, 'bt %s, t0' % ls, 'mov t1, t2',
@@ -353,7 +369,7 @@ class Gen:
             o += ['jmp %s' % le, '%s:' % lb]
             o += self.stmts(f, 1, depth + 1, inloop)
             o.append('%s:' % le)
-        elif r < 0.79 and depth < 3 and self.ok('lref') and f.kind != 'va':
+        elif r < 0.79 and depth < 3 and self.ok('lref') and f.kind != 'va' and not f.nojmpi:
             self.feats.add('lref')
             la, lb, le = (self.newlab(f) for _ in range(3))
             tab = 'lt_%s_%d' % (f.name, len(f.lrefs))
@@ -363,7 +379,7 @@ class Gen:
             o += ['jmp %s' % le, '%s:' % lb]
             o += self.stmts(f, 1, depth + 1, inloop)
             o.append('%s:' % le)
-        elif r < 0.805 and depth < 3 and self.ok('lref') and self.ok('laddr') and f.kind != 'va':
+        elif r < 0.805 and depth < 3 and self.ok('lref') and self.ok('laddr') and f.kind != 'va' and not f.nojmpi:
             # label difference in data (`lref La, Lb` = &La - &Lb in the running engine) added to a label address
             self.feats.add('lref_diff')
             la, lb, le = (self.newlab(f) for _ in range(3))
@@ -400,6 +416,62 @@ class Gen:
                 o += self.callback(f, a, b)
         else:
             o += self.call(f, depth, inloop)
+        return o
+
+    def lref_dead(self, f):
+        """An lref table of the function whose labels need not be reachable: the two entries of a table cancel in every
+        engine (one label: `lref L, d` twice, difference 0; two labels: `lref La, Lb, d` and `lref Lb, La, -d`, sum 0; a
+        table whose label the generator finds unreachable holds zeros), so reading them is well defined although a
+        label address / label difference itself is engine specific.
+          form   one | two | same (`lref L, L`)            x  displacement 0 / small / page sized / negative
+          place  of each label: live (fall-through code) | dead (after a jmp; referred to by nothing but lref data,
+                 a laddr or an unreachable jmpi)           -- reachable all the same when the function has a reachable
+                 jmpi somewhere (f.nojmpi False): jmpi has an edge to every label whose address is taken
+          user   none | read0 (the cancelling read) | laddr0 (laddr of the label, value masked) | jmpi_dead (a jmpi
+                 through the table that is itself in unreachable code)"""
+        rng = self.rng
+        form = rng.choice(['one', 'one', 'two', 'two', 'two', 'two', 'same'])
+        disp = rng.choice([0, 0, 8, -16, 1, 4096, -1])
+        if form == 'same':
+            disp = 0
+        pa, pb = rng.choice(['dead', 'dead', 'live']), rng.choice(['dead', 'dead', 'live'])
+        user = rng.choice(['none', 'read0', 'read0', 'read0', 'laddr0', 'jmpi_dead'])
+        la, lb, le = (self.newlab(f) for _ in range(3))
+        tab = 'lt_%s_%d' % (f.name, len(f.lrefs))
+        if form == 'one':
+            ents = [(la, None, disp), (la, None, disp)]
+        elif form == 'two':
+            ents = [(la, lb, disp), (lb, la, -disp)]
+        else:
+            ents = [(la, la, 0), (la, la, 0)]
+        f.lrefs.append((tab, ents))   # (before the nested statements take the next table names)
+        a = rng.choice(f.ir)
+        labs = [(la, pa)] + ([(lb, pb)] if form == 'two' else [])
+        if rng.random() < 0.5:
+            labs.reverse()
+        o = []
+        for lab, pl in labs:
+            if pl == 'live':
+                o.append('%s:' % lab)
+                o += self.stmts(f, 1, 2)
+        o.append('jmp %s' % le)
+        for lab, pl in labs:
+            if pl == 'dead':
+                o.append('%s:' % lab)
+                o += self.stmts(f, rng.randint(0, 1), 2)
+                if rng.random() < 0.4:
+                    o.append('jmp %s' % le)
+        if user == 'jmpi_dead':
+            o += ['mov t3, %s' % tab, 'mov t1, i64:(t3)', 'jmpi t1']
+        o.append('%s:' % le)
+        if user == 'read0':
+            o += ['mov t3, %s' % tab, 'mov t1, i64:(t3)', '%s t1, t1, i64:8(t3)' % ('sub' if form == 'one' else 'add'),
+                  'add %s, %s, t1' % (a, a)]
+        elif user == 'laddr0':
+            o += ['laddr t1, %s' % rng.choice(labs)[0], 'and t1, t1, 0', 'add %s, %s, t1' % (a, a)]
+        self.feats.add('lref_dead')
+        self.lref_shapes.append('%s%s:%s:%s:%s' % (form, '+d' if disp else '', '/'.join(pl for _, pl in sorted(labs)), user,
+                                                   'nojmpi' if f.nojmpi else 'jmpi-possible'))
         return o
 
     def callback(self, f, a, b):
@@ -607,7 +679,9 @@ class Gen:
                         txt.append('%sref %s, 0' % ('ft_%s: ' % f.name if i == 0 else '  ', n))
                 for tab, labs in f.lrefs:
                     for i, l in enumerate(labs):
-                        txt.append('%slref %s' % (tab + ': ' if i == 0 else '  ', l if isinstance(l, str) else '%s, %s' % l))
+                        if not isinstance(l, str):   # (label, second label or None[, displacement])
+                            l = ', '.join([l[0]] + ([l[1]] if l[1] else []) + ([str(l[2])] if len(l) > 2 and l[2] else []))
+                        txt.append('%slref %s' % (tab + ': ' if i == 0 else '  ', l))
             txt.append('  endmodule')
         return '\n'.join(txt) + '\n'
 
@@ -624,7 +698,224 @@ def gen_program(rng, feats=None, **kw):
                   uses=sorted(getattr(f, 'uses', set())), lref=bool(f.lrefs), ngate=f.ngate) for f in g.funcs]
     entries = [f for f in funcs if f['kind'] in ENTRY_SIGS]
     return dict(text=text, nmodules=g.nmod + (1 if g.island_mod is not None else 0), layered=g.layered, funcs=funcs, entries=entries,
-                features=sorted(g.feats), cost=cost, island=g.island_mod)
+                features=sorted(g.feats), cost=cost, island=g.island_mod, lref_shapes=g.lref_shapes)
+
+
+# ---------------------------------------------------------------- LARGE functions (round 3, wave z)
+#
+# Everything the engines do to machine code AFTER it was published -- change_calls (6-byte `rex call rel32` rewrite of every
+# call through the constant pool), target_change_to_direct_calls (4-byte rel32 rewrite when an eager link finishes),
+# setup_rel32 / target_redirect_bb_origin_branch (origin-branch patching of lazy-BB code), _MIR_update_code_arr (absolute
+# addresses of switch tables) -- goes through _MIR_change_code / _MIR_set_code, i.e. depends on WHERE in the code pages the
+# patched bytes lie (page start / end, straddling two pages, first / last page of a code holder).  The programs above
+# have functions of a few hundred bytes; the programs below have functions whose machine code is many pages long with
+# hundreds to thousands of patched sites, laid out at varying strides after a pad of random length, so that the sites
+# fall on all offsets modulo the page size (a 6-byte site in a run of 9-byte calls straddles a given page boundary with
+# probability 5/9).  Cheap: ~0.1 s to generate and run 5000 call sites.
+
+BIG_SEGS = ('pad', 'calls', 'branches', 'switch', 'loop', 'diamonds')
+
+
+def gen_big_program(rng, scale=1.0):
+    nmod = rng.choice([1, 1, 2])
+    lab = [0]
+    feats = set(['big'])
+
+    def newlab():
+        lab[0] += 1
+        return 'B%d' % lab[0]
+    # leaf callees: > 50 insns (MIR_link does not inline plain calls of them), 1..4 integer parameters, one of them logs
+    ncal = rng.randint(2, 4)
+    callees = []
+    for k in range(ncal):
+        na = rng.choice([1, 1, 2, 3, 4])
+        body = ['mov r, a0']
+        for i in range(1, na):
+            body.append('mul t, a%d, %d' % (i, 2 * i + 3))
+            body.append('add r, r, t')
+        for i in range(rng.randint(52, 60)):
+            body.append(rng.choice(['add r, r, %d', 'xor r, r, %d', 'sub r, r, %d']) % rng.randint(1, 999))
+        if k == 0:
+            body += ['and t, r, 1023', 'bne %s, t, %d' % ('G%d_skip' % k, rng.randint(0, 1023)), 'call p_log, ext_log, t, r', 'G%d_skip:' % k]
+        body.append('ret r')
+        callees.append(dict(name='g%d' % k, nargs=na, body=body, module=0))
+    nbig = rng.choice([1, 1, 2])
+    bigs = []
+    regs = ['r0', 'r1', 'r2', 'r3', 'r4', 'r5']
+    for b in range(nbig):
+        budget = int(rng.choice([1200, 2500, 4000, 6000]) * scale)
+        o = []
+        e = o.append
+        nseg = 0
+        # the pad decides where, modulo the page size, everything after it lies
+        segs = []
+        while budget > 0:
+            kind = 'pad' if not segs else rng.choice(['calls', 'calls', 'calls', 'branches', 'branches', 'diamonds', 'switch', 'loop', 'pad'])
+            segs.append(kind)
+            if kind == 'pad':
+                n = rng.randint(0, 450)
+            elif kind == 'calls':
+                n = rng.randint(300, 2500)
+            elif kind in ('branches', 'diamonds'):
+                n = rng.randint(60, 500)
+            elif kind == 'switch':
+                n = rng.randint(3, 30)
+            else:
+                n = rng.randint(20, 200)
+            n = max(1, int(n * scale))
+            budget -= n * {'pad': 1, 'calls': 1, 'branches': 3, 'diamonds': 5, 'switch': 12, 'loop': 2}[kind]
+            feats.add('big_' + kind)
+            if kind == 'pad':
+                for i in range(n):
+                    a, c = rng.choice(regs), rng.choice(regs)
+                    k = rng.random()
+                    if k < 0.7:
+                        e('%s %s, %s, %d' % (rng.choice(['add', 'xor', 'sub', 'or']), a, c, rng.randint(1, 10 ** rng.randint(1, 9))))
+                    elif k < 0.85:
+                        e('%s %s, %s, %s' % (rng.choice(['add', 'xor', 'sub', 'mul']), a, c, rng.choice(regs)))
+                    else:
+                        e('mov i64:%d(m), %s' % (8 * rng.randrange(64), a))
+            elif kind == 'calls':
+                # a run of calls at one stride: the same call repeated, or callees / registers rotating, or constant
+                # arguments; sometimes an arithmetic insn after every j-th call (stride jitter)
+                style = rng.choice(['same', 'same', 'rot', 'const'])
+                jit = rng.choice([0, 0, 3, 7, 50])
+                g = rng.choice(callees)
+                a = rng.choice(regs)
+                for i in range(n):
+                    if style == 'rot':
+                        g = callees[i % len(callees)]
+                        a = regs[i % len(regs)]
+                    args = [a] + [rng.choice(regs) if style != 'const' else str(rng.randint(-99, 99)) for _ in range(g['nargs'] - 1)]
+                    e('call p_%s, %s, %s, %s' % (g['name'], g['name'], a, ', '.join(args)))
+                    if jit and i % jit == jit - 1:
+                        e('add %s, %s, %d' % (a, a, i))
+            elif kind == 'branches':
+                # many small blocks; which way each branch goes depends on the entry's arguments, so a second call
+                # with other arguments runs (and, under lazy-BB, generates and patches in) the other successors
+                fill = rng.choice([0, 0, 2, 6])   # blocks of varying length
+                for i in range(n):
+                    l = newlab()
+                    a = rng.choice(regs)
+                    for _ in range(rng.randint(0, fill)):
+                        e('add %s, %s, %d' % (rng.choice(regs), rng.choice(regs), rng.randint(1, 10 ** rng.randint(1, 9))))
+                    k = rng.random()
+                    if k < 0.5:
+                        e('and t0, a1, %d' % (1 << rng.randrange(16)))
+                        e('%s %s, t0' % (rng.choice(['bf', 'bt']), l))
+                    elif k < 0.8:
+                        e('and t0, %s, %d' % (a, 1 << rng.randrange(8)))
+                        e('%s %s, t0, 0' % (rng.choice(['beq', 'bne']), l))
+                    else:
+                        e('%s %s, %s, %s' % (rng.choice(['blt', 'bge', 'ubgt', 'bles']), l, a, rng.choice(regs)))
+                    if rng.random() < 0.15:
+                        g = rng.choice(callees)
+                        e('call p_%s, %s, %s, %s' % (g['name'], g['name'], a, ', '.join([a] + [rng.choice(regs) for _ in range(g['nargs'] - 1)])))
+                    else:
+                        e('add %s, %s, %d' % (a, a, i + 1))
+                    e('%s:' % l)
+            elif kind == 'diamonds':
+                for i in range(n):
+                    l1, l2 = newlab(), newlab()
+                    a = rng.choice(regs)
+                    e('and t0, %s, %d' % (rng.choice(['a1', 'a0', a]), 1 << rng.randrange(12)))
+                    e('%s %s, t0' % (rng.choice(['bf', 'bt']), l1))
+                    e('add %s, %s, %d' % (a, a, 2 * i + 1))
+                    e('jmp %s' % l2)
+                    e('%s:' % l1)
+                    e('xor %s, %s, %d' % (a, a, 3 * i + 2))
+                    e('%s:' % l2)
+            elif kind == 'switch':
+                for i in range(n):
+                    m = rng.randint(2, 6)
+                    labs = [newlab() for _ in range(m)]
+                    le, l0 = newlab(), newlab()
+                    a = rng.choice(regs)
+                    e('and t0, %s, 7' % rng.choice(['a1', a]))
+                    e('ublt %s, t0, %d' % (l0, m))
+                    e('mov t0, 0')
+                    e('%s:' % l0)
+                    e('switch t0, ' + ', '.join(labs))
+                    for j, lb in enumerate(labs):
+                        e('%s:' % lb)
+                        e('add %s, %s, %d' % (a, a, 10 * i + j))
+                        e('jmp %s' % le)
+                    e('%s:' % le)
+            else:   # loop: a few iterations over a short run of calls and branches (backward branches, loop alignment pads)
+                lh = newlab()
+                it = rng.randint(2, 3)
+                e('mov c%d, %d' % (nseg, it))
+                e('%s:' % lh)
+                for i in range(n):
+                    a = rng.choice(regs)
+                    if rng.random() < 0.6:
+                        g = rng.choice(callees)
+                        e('call p_%s, %s, %s, %s' % (g['name'], g['name'], a, ', '.join([a] + [rng.choice(regs) for _ in range(g['nargs'] - 1)])))
+                    else:
+                        l = newlab()
+                        e('and t0, %s, %d' % (a, 1 << rng.randrange(6)))
+                        e('bt %s, t0' % l)
+                        e('add %s, %s, %d' % (a, a, i + 1))
+                        e('%s:' % l)
+                e('sub c%d, c%d, 1' % (nseg, nseg))
+                e('bgt %s, c%d, 0' % (lh, nseg))
+            nseg += 1
+        bigs.append(dict(name='f%d_ii' % b, body=o, nseg=nseg, segs=segs, module=nmod - 1))
+    # text
+    txt = []
+    for m in range(nmod):
+        txt.append('m%d: module' % m)
+        mc = [g for g in callees if g['module'] == m]
+        mb = [f for f in bigs if f['module'] == m]
+        imp = [g['name'] for g in callees if g['module'] != m] if mb else []
+        txt.append('  import ext_log' + ''.join(', ' + i for i in imp))
+        txt.append('  export mem%d%s' % (m, ''.join(', ' + x['name'] for x in mc + mb)))
+        txt.append('  forward ' + ', '.join(x['name'] for x in mc + mb))
+        txt.append('p_log: proto i64, i64:v')
+        for g in callees:
+            txt.append('p_%s: proto i64, %s' % (g['name'], ', '.join('i64:a%d' % i for i in range(g['nargs']))))
+        txt.append('mem%d: bss 512' % m)
+        # a callee defined BEFORE its caller is called through the func item itself (call site recorded, rewritten to
+        # a direct call by the next eager link), one defined after it through the forward item
+        items = [('g', g) for g in mc] + [('f', f) for f in mb]
+        # (only calls of the first kind and of imported functions are patched at all: callees first, mostly)
+        k = rng.random()
+        if k < 0.15:
+            items.reverse()
+        elif k < 0.4:
+            rng.shuffle(items)
+        for what, x in items:
+            if what == 'g':
+                txt.append('%s: func i64, %s' % (x['name'], ', '.join('i64:a%d' % i for i in range(x['nargs']))))
+                txt.append('  local i64:r, i64:t')
+                for l in x['body']:
+                    txt.append(l if l.endswith(':') else '  ' + l)
+                txt.append('  endfunc')
+            else:
+                txt.append('%s: func i64, i64:a0, i64:a1' % x['name'])
+                txt.append('  local ' + ', '.join('i64:' + r for r in regs + ['t0', 'm'] + ['c%d' % i for i in range(x['nseg'])]))
+                for i, r in enumerate(regs):
+                    txt.append('  mov %s, %s' % (r, ['a0', 'a1', str(7 * i + 1)][i % 3]))
+                for i in range(x['nseg']):
+                    txt.append('  mov c%d, 0' % i)
+                txt.append('  mov m, mem%d' % m)
+                txt += ['  mov t0, 0', '  mov t0, 0']   # (end of the initialisation block: checks/c03_ifaces.py removable ())
+                for l in x['body']:
+                    txt.append(l if l.endswith(':') else '  ' + l)
+                for r in regs[1:]:
+                    txt.append('  mul r0, r0, 31')
+                    txt.append('  add r0, r0, %s' % r)
+                txt.append('  ret r0')
+                txt.append('  endfunc')
+        txt.append('  endmodule')
+    funcs = [dict(name=g['name'], module=g['module'], kind='int', rank=10 + i, nargs=g['nargs'], uses=[], lref=False, ngate=0)
+             for i, g in enumerate(callees)]
+    funcs += [dict(name=f['name'], module=f['module'], kind='ii', rank=i, nargs=2, uses=[g['name'] for g in callees], lref=False, ngate=0)
+              for i, f in enumerate(bigs)]
+    entries = [f for f in funcs if f['kind'] == 'ii']
+    return dict(text='\n'.join(txt) + '\n', nmodules=nmod, layered=True, funcs=funcs, entries=entries,
+                features=sorted(feats), cost=sum(len(f['body']) for f in bigs), island=None,
+                big_insns=[len(f['body']) for f in bigs], big_segments=[s for f in bigs for s in f['segs']])
 
 
 def gen_call(rng, ent):
